@@ -200,7 +200,19 @@ def make_faults(ctx, rng, thorough):
                                                               + [rng.randrange(11, len(gz) - 8) for _ in range(4)]))
     for o in gz_offs:
         if 0 < o < len(gz):
-            yield Fault(f"truncate-gzip@{o}of{len(gz)}", {"in1.fq.gz": gz[:o]}, None, True, {"in1.fq.gz": ""}, detail="gzip")
+            # records decompressed before the cut may legitimately be written before the error: they must be a
+            # prefix of the output for the complete file
+            yield Fault(f"truncate-gzip@{o}of{len(gz)}", {"in1.fq.gz": gz[:o]}, None, True, {"in1.fq.gz": t1}, detail="gzip")
+    # (c') a larger compressed file, so that the stream breaks while chunks are being read, not during format detection
+    big = gen_records(rng, 900 if not thorough else 2500)
+    tb = fastx.format_fastq(big)
+    for kind, ext in (("gz", ".gz"), ("bz2", ".bz2"), ("xz", ".xz")):
+        blob = fastx.compress(tb.encode(), kind) if kind != "gz" else gzip.compress(tb.encode(), 1, mtime=0)
+        cuts = [len(blob) // 3, 2 * len(blob) // 3, len(blob) - 5, len(blob) - 1]
+        if thorough:
+            cuts += [rng.randrange(20, len(blob) - 8) for _ in range(8)]
+        for o in sorted(set(cuts)):
+            yield Fault(f"truncate-big-{kind}@{o}of{len(blob)}", {"in1.fq" + ext: blob[:o]}, None, True, {"in1.fq" + ext: tb}, detail=f"{kind}, 900+ records")
     yield Fault("gzip-empty", {"in1.fq.gz": b""}, None, False, {"in1.fq.gz": ""}, detail="gzip")
     flips = range(10 * 8, len(gz) * 8) if False else [rng.randrange(10 * 8, len(gz) * 8) for _ in range(6 if not thorough else 60)]
     for bit in flips:
@@ -227,7 +239,10 @@ def expected_output(ctx, d, fault, cmd, cache):
     os.makedirs(e)
     names = []
     for name, text in fault.wf_prefix.items():
-        plain = name[:-3] if name.endswith(".gz") else name
+        plain = name
+        for ext in (".gz", ".bz2", ".xz"):
+            if plain.endswith(ext):
+                plain = plain[: -len(ext)]
         with open(os.path.join(e, plain), "w") as f:
             f.write(text)
         names.append(plain)
@@ -361,12 +376,14 @@ def run_shard(ctx):
             if state["timeouts"] >= 3:
                 ctx.mark_inconclusive("three runs exceeded the watchdog; shard stopped early")
                 return
-            if not thorough and fi % 2 != ctx.shard % 2 and not fault.label.startswith(("corrupt", "mate", "interleaved-odd")):
+            if not thorough and fi % 2 != ctx.shard % 2 and not fault.label.startswith(("corrupt", "mate", "interleaved-odd", "truncate-big")):
                 continue
             size = sum(len(b) for b in fault.files.values())
             combos = [(1, 0, None)]
             # the (hidden) buffer size must hold at least one record (pair); 400 bytes is several times the largest record here
             bufs = [max(400, size // 4), max(400, size // 2), 100000]
+            if fault.label.startswith("truncate-big"):
+                bufs = [20000, 8000, 60000]
             if thorough:
                 combos += [(2, bufs[0], 1), (3, bufs[1], 2), (2, bufs[2], None)]
             else:
